@@ -8,6 +8,9 @@ from gen import rng_for
 from .common import tolist, exceeds
 
 LEAN = "PystogVerif.Props.C18"
+# theorems about the code generated from stog.py / cli.py by tools/translate_stog.py (built when these methods translate)
+LEAN_GEN = "PystogVerif.Props.C18Gen"
+STOG_METHODS = ['write_out_merged_sq', 'write_out_merged_gr', 'write_out_ft', 'write_out_ft_sq', 'write_out_ft_gr', 'write_out_lorched_gr', 'write_out_rmc_fq', 'write_out_rmc_gr']
 ENTRIES = []
 RULE = ("one of the 8 writers (default or explicit file name, random stem), curve length 0-300, magnitudes 1e-14..1e6 of both signs, "
         "-0.0, tiny negatives that round to -0.000000000000, half-way cases k+0.5 ulp of 1e-12; a second kind of case writes a merged "
